@@ -56,7 +56,7 @@ func init() {
 				Min:  map[string]int64{"accepted": 2000}},
 			{Name: "disivg-binary", N: func(string) uint64 { return 1 }, Run: c11Binary, Serial: true,
 				Rule: "cmd/disivg built from the repository and executed on files: stdout must equal the in-process listing, exit status non-zero exactly when Disassemble fails",
-				Min:  map[string]int64{"binary_runs_ok": 10, "binary_runs_rejected": 5}, CaseCPU: 600},
+				Min:  map[string]int64{"binary_runs_ok": 10, "binary_runs_rejected": 5, "binary_runs_writing_to_a_file_that_exists": 5}, CaseCPU: 600},
 		},
 	})
 }
@@ -791,11 +791,28 @@ func c11Binary(c *run.Ctx, idx uint64) {
 		}
 		want, werr := decode.Disassemble(b)
 		cmd := exec.Command(bin, path)
+		// every other run writes the listing to a file with -o: always the same
+		// file, so that it already holds the listing of an earlier (longer or
+		// shorter) graphic
+		toFile := k%2 == 1
+		outPath := filepath.Join(dir, "listing.txt")
+		if toFile {
+			cmd = exec.Command(bin, "-o", outPath, path)
+		}
 		var stdout, stderr bytes.Buffer
 		cmd.Stdout, cmd.Stderr = &stdout, &stderr
 		rerr := cmd.Run()
 		c.Eval(run.HashBytes(b), werr == nil)
-		if werr == nil {
+		if werr == nil && toFile {
+			c.Count("binary_runs_ok", 1)
+			c.Count("binary_runs_writing_to_a_file_that_exists", 1)
+			got, ferr := os.ReadFile(outPath)
+			if rerr != nil || ferr != nil {
+				c.Violate("binary-fails-on-valid-file", map[string]interface{}{"input": hx(b), "stderr": stderr.String(), "to_file": true})
+			} else if !bytes.Equal(got, want) {
+				c.Violate("binary-output-file-differs", map[string]interface{}{"input": hx(b), "file_bytes": len(got), "listing_bytes": len(want)})
+			}
+		} else if werr == nil {
 			c.Count("binary_runs_ok", 1)
 			if rerr != nil {
 				c.Violate("binary-fails-on-valid-file", map[string]interface{}{"input": hx(b), "stderr": stderr.String()})
